@@ -2,7 +2,7 @@
    (unique keys / sorted keys), that re-inserting the items of a container into an empty one
    reproduces it (copy construction and assignment are written that way in the code), and what
    operations whose argument is the container itself amount to. *)
-From Coq Require Import ZArith List Bool Arith Lia.
+From Coq Require Import ZArith List Bool Arith Lia Permutation.
 From Life Require Import LifeSpec.
 Import ListNotations.
 Local Open Scope Z_scope.
@@ -248,6 +248,27 @@ Proof.
   - pose proof (G x) as Gx. destruct (sget s x) as [[k l]|]; cbn [snd]; auto.
     destruct (via_idx v k (length l) i) as [j|]; cbn [snd]; auto.
     destruct (j <? length l)%nat; cbn [snd]; auto. apply Forall_set_at; auto. apply keys_ok_remove_at. auto.
+  - destruct (sdead s x && has_capctor k); cbn [snd]; auto. apply Forall_set_at; auto. apply keys_ok_nil.
+  - destruct (sget s x) as [[k l]|]; cbn [snd]; auto.
+    destruct (can_find k); cbn [snd]; auto.
+    destruct (if has_key k then sarg_key s ka else sarg_val s ka); cbn [snd]; auto.
+  - destruct (sget s x) as [[k l]|]; cbn [snd]; auto.
+    destruct (can_emplace k) eqn:CE; cbn [andb snd]; auto.
+    destruct (length args <=? 7)%nat; cbn [snd]; auto.
+    destruct (sarg_vals s args); cbn [snd]; auto.
+    apply Forall_set_at; auto. destruct k; try discriminate. split; intros Q; discriminate.
+  - destruct (sget s x) as [[k l]|]; cbn [snd]; auto.
+    destruct (is_array k) eqn:A; cbn [snd]; auto.
+    apply Forall_set_at; auto. destruct k; try discriminate. apply keys_ok_array.
+  - pose proof (G x) as Gx. destruct (sget s x) as [[k l]|]; cbn [snd]; auto.
+    destruct (can_hint k); cbn [snd]; auto.
+    destruct (sarg_key s ka); cbn [snd]; auto.
+    destruct (sarg_val s va); cbn [snd]; auto.
+    destruct (hint_tie k (asel k l) (pos_idx p (length l)) z); cbn [snd]; auto.
+    apply Forall_set_at; auto. apply keys_ok_ins. auto.
+  - destruct (sget s x) as [[k l]|]; cbn [snd]; auto.
+    destruct (can_sort k) eqn:CS; cbn [snd]; auto.
+    apply Forall_set_at; auto. destruct k; try discriminate. split; intros Q; discriminate.
 Qed.
 
 Lemma swf_init n : swf (sinit n).
@@ -318,3 +339,108 @@ Qed.
 (* ---- the shape of mk_anode ---- *)
 Lemma shaped1_mk k kz vz : shaped1 k (mk_anode k kz vz).
 Proof. unfold shaped1, mk_anode. destruct (has_key k), (has_val k); reflexivity. Qed.
+
+(* ---- sorting: zsort yields THE sorted permutation ---- *)
+Lemma zinsert_perm z l : Permutation (zinsert z l) (z :: l).
+Proof.
+  induction l as [|h t IH]; cbn [zinsert]; auto.
+  destruct (z <=? h); auto. rewrite IH. apply perm_swap.
+Qed.
+Lemma zsort_perm l : Permutation (zsort l) l.
+Proof.
+  induction l as [|h t IH]; cbn [zsort]; auto. rewrite zinsert_perm. constructor. exact IH.
+Qed.
+Lemma zinsert_sorted z l : ssorted l -> ssorted (zinsert z l).
+Proof.
+  induction l as [|h t IH]; cbn [zinsert ssorted].
+  - intros _. split; auto. intros b [].
+  - intros [H1 H2]. destruct (Z.leb_spec z h) as [L|L]; cbn [ssorted].
+    + split; [|split; auto]. intros b [<-|I]; [lia|]. specialize (H1 b I). lia.
+    + split; [|apply IH; auto]. intros b I.
+      apply (Permutation_in _ (zinsert_perm z t)) in I. destruct I as [<-|I]; [lia | auto].
+Qed.
+Lemma zsort_sorted l : ssorted (zsort l).
+Proof. induction l as [|h t IH]; cbn [zsort]; [exact Logic.I | apply zinsert_sorted; exact IH]. Qed.
+
+Lemma ssorted_perm_eq a : forall b, ssorted a -> ssorted b -> Permutation a b -> a = b.
+Proof.
+  induction a as [|x a IH]; intros b Sa Sb P.
+  - apply Permutation_nil in P. auto.
+  - destruct b as [|y b]; [apply Permutation_sym, Permutation_nil in P; discriminate|].
+    cbn [ssorted] in Sa, Sb. destruct Sa as [Ha Sa]. destruct Sb as [Hb Sb].
+    assert (E : x = y).
+    { assert (I1 : In x (y :: b)) by (eapply Permutation_in; [exact P | left; auto]).
+      assert (I2 : In y (x :: a)) by (eapply Permutation_in; [apply Permutation_sym; exact P | left; auto]).
+      destruct I1 as [Q|I1]; [auto|]. destruct I2 as [Q|I2]; [auto|].
+      specialize (Ha _ I2). specialize (Hb _ I1). lia. }
+    subst y. f_equal. apply IH; auto. eapply Permutation_cons_inv; eauto.
+Qed.
+
+(* a sorted permutation of l is zsort l *)
+Theorem zsort_unique l r : ssorted r -> Permutation r l -> r = zsort l.
+Proof.
+  intros S P. apply ssorted_perm_eq; auto; [apply zsort_sorted|].
+  rewrite P. symmetry. apply zsort_perm.
+Qed.
+
+(* ---- where a key goes in a sorted sequence, said with its neighbours ---- *)
+Lemma ins_pos_between z l : forall h, ssorted l ->
+  (forall j a, (j < h)%nat -> nth_error l j = Some a -> a <= z) ->
+  (forall j a, (h <= j)%nat -> nth_error l j = Some a -> z < a) ->
+  (h <= length l)%nat -> ins_pos z l = h.
+Proof.
+  induction l as [|x t IH]; intros h S Lo Hi Len; cbn [ins_pos].
+  - cbn in Len. lia.
+  - cbn [ssorted] in S. destruct S as [Hx St].
+    destruct h as [|h].
+    + assert (Q : z < x) by (apply (Hi 0%nat x); [lia | reflexivity]).
+      destruct (Z.leb_spec x z); [lia | reflexivity].
+    + assert (Q : x <= z) by (apply (Lo 0%nat x); [lia | reflexivity]).
+      destruct (Z.leb_spec x z); [|lia]. f_equal. apply IH; auto.
+      * intros j a Lj N. apply (Lo (S j) a); [lia | exact N].
+      * intros j a Lj N. apply (Hi (S j) a); [lia | exact N].
+      * cbn in Len. lia.
+Qed.
+
+Lemma ssorted_nth_le l : ssorted l -> forall i j a b, (i <= j)%nat -> nth_error l i = Some a -> nth_error l j = Some b -> a <= b.
+Proof.
+  induction l as [|x t IH]; intros S i j a b L Ni Nj; [destruct i; discriminate|].
+  cbn [ssorted] in S. destruct S as [Hx St].
+  destruct i as [|i], j as [|j]; cbn [nth_error] in Ni, Nj; try lia.
+  - inversion Ni. inversion Nj. lia.
+  - inversion Ni. subst. apply Hx. eapply nth_error_In; eauto.
+  - eapply (IH St i j); eauto. lia.
+Qed.
+
+(* prev <= z (or no prev) and z < next (or no next), in a sorted sequence: z goes to index h *)
+Lemma ins_pos_hint z l h : ssorted l -> (h <= length l)%nat ->
+  (forall pk, (0 < h)%nat -> nth_error l (h - 1) = Some pk -> pk <= z) ->
+  (forall nk, nth_error l h = Some nk -> z < nk) ->
+  ins_pos z l = h.
+Proof.
+  intros S Len Lo Hi. apply ins_pos_between; auto.
+  - intros j a Lj N.
+    destruct (nth_error l (h - 1)) as [pk|] eqn:Np.
+    + pose proof (ssorted_nth_le l S j (h - 1) a pk ltac:(lia) N Np). specialize (Lo pk ltac:(lia) eq_refl). lia.
+    + apply nth_error_None in Np. lia.
+  - intros j a Lj N.
+    destruct (nth_error l h) as [nk|] eqn:Nn.
+    + pose proof (ssorted_nth_le l S h j nk a Lj Nn N). specialize (Hi nk eq_refl). lia.
+    + apply nth_error_None in Nn. assert (j < length l)%nat by (apply nth_error_Some; congruence). lia.
+Qed.
+
+(* ... and strictly between its neighbours it is not there yet *)
+Lemma notin_hint z l h : ssorted l -> (h <= length l)%nat ->
+  (forall pk, (0 < h)%nat -> nth_error l (h - 1) = Some pk -> pk < z) ->
+  (forall nk, nth_error l h = Some nk -> z < nk) ->
+  ~ In z l.
+Proof.
+  intros S Len Lo Hi I. destruct (In_nth_error _ _ I) as (j & N).
+  destruct (Nat.lt_ge_cases j h) as [Lj|Lj].
+  - destruct (nth_error l (h - 1)) as [pk|] eqn:Np.
+    + pose proof (ssorted_nth_le l S j (h - 1) z pk ltac:(lia) N Np). specialize (Lo pk ltac:(lia) eq_refl). lia.
+    + apply nth_error_None in Np. lia.
+  - destruct (nth_error l h) as [nk|] eqn:Nn.
+    + pose proof (ssorted_nth_le l S h j nk z Lj Nn N). specialize (Hi nk eq_refl). lia.
+    + apply nth_error_None in Nn. assert (j < length l)%nat by (apply nth_error_Some; congruence). lia.
+Qed.
